@@ -22,7 +22,13 @@ def make_job(rng, idx, quick):
         cfg = {"ir": repr(r), "or": "1", "recipe": rng.choice([0, 0, 1, 3, 4, 6]), "qflags": rng.choice([0, 0, 8, 16])}
         env = {"SOXR_USE_SIMD": "0"} if rng.chance(.4) else {}
     else:
-        cfg, env = cr.gen_config(rng, max_up=2000, max_down=20000)
+        dt = rng.chance(.35)      # every datatype / layout / 1-4 channels, some with a gain that saturates integer output (clip repair loops)
+        cfg, env = cr.gen_config(rng, max_up=2000, max_down=20000, datatypes=dt, channels=dt)
+        if rng.chance(.2):
+            # loud streams into integer output: the saturation repair of rint-clip.h (a loop that re-scans a block of 16 frames) runs on
+            # every block, several channels, either layout; moderate ratios so that whole blocks are delivered
+            cfg, env = cr.gen_config(rng, max_up=8, max_down=8, datatypes=True, channels=True)
+            cfg.update({"otype": rng.choice([2, 3, 2, 3, 6, 7]), "scale": rng.choice([2.0, 3.0, 1.3]), "ch": rng.choice([1, 2, 2, 3, 4])})
         r = cr.io_ratio(cfg)
     # enough input for a few outputs, bounded work
     N = int(min(max(3 * r, 5000 if r >= 1 else 8), 3e5 if quick else 3e6))
